@@ -29,7 +29,7 @@ CLASSMODELS = {
               'invariant': INV},
 }
 
-UNCHANGED = ['self.n == old(self.n)', 'self.m == old(self.m)', 'self.adjlist == old(self.adjlist)', 'self.edgeset == old(self.edgeset)']
+UNCHANGED = ['self.n == old(self.n)', 'self.m == old(self.m)', 'self.adjlist == old(self.adjlist)', 'self.edgeset == old(self.edgeset)', 'self.idx == old(self.idx)']
 
 CONTRACTS = {
     ('cnfgen/localtypes.py', 'non_negative_int'): {'inline_always': True},
@@ -65,6 +65,7 @@ CONTRACTS = {
         'property': ['C16'],
         'source': (G, 'BaseGraph.add_edges_from'),
         'params': {'self': 'obj:Graph', 'edges': 'pairlist'},
+        'modifies': ['self.adjlist', 'self.edgeset', 'self.m', 'self.idx'],
         # refused at the first pair the graph type does not allow
         'raises': {'ValueError': 'not forall(lambda j: implies(0 <= j and j < len(edges), 1 <= edges[j][0] and edges[j][0] <= self.n and '
                                  '1 <= edges[j][1] and edges[j][1] <= self.n and edges[j][0] != edges[j][1]))'},
@@ -83,6 +84,7 @@ CONTRACTS = {
     (G, 'Graph.remove_edge'): {
         'property': ['C16'],
         'params': {'u': 'int', 'v': 'int'},
+        'modifies': ['self.adjlist', 'self.edgeset', 'self.m', 'self.idx'],
         'inline': ['Graph.has_edge'],
         'ghost_code': [
             ('self.adjlist[u].remove(v)',
@@ -101,6 +103,7 @@ CONTRACTS = {
     (G, 'Graph.update_vertex_number'): {
         'property': ['C16'],
         'params': {'new_value': 'int'},
+        'modifies': ['self.adjlist', 'self.n'],
         'raises': {'ValueError': 'new_value < 0'},
         'ensures_on_raise': UNCHANGED,
         'loops': {0: {'ghost_at_entry': {'A0': 'self.adjlist'}, 'ghost_at_entry_vals': {'N0': 'self.n'},
@@ -154,7 +157,7 @@ CLASSMODELS['DirectedGraphRep'] = {
                'idxs': 'ghostfun2', 'idxp': 'ghostfun2'},
     'invariant': D_INV}
 D_UNCHANGED = ['self.n == old(self.n)', 'self.m == old(self.m)', 'self.pred == old(self.pred)', 'self.succ == old(self.succ)',
-               'self.edgeset == old(self.edgeset)', 'self.still_a_dag == old(self.still_a_dag)']
+               'self.edgeset == old(self.edgeset)', 'self.still_a_dag == old(self.still_a_dag)', 'self.idxp == old(self.idxp)', 'self.idxs == old(self.idxs)']
 
 CONTRACTS.update({
     (G, 'DirectedGraphRep.has_edge'): {
@@ -225,7 +228,7 @@ CLASSMODELS['BipartiteGraphRep'] = {
                'idxl': 'ghostfun2', 'idxr': 'ghostfun2'},
     'invariant': B_INV}
 B_UNCHANGED = ['self.lorder == old(self.lorder)', 'self.rorder == old(self.rorder)', 'self.ladj == old(self.ladj)',
-               'self.radj == old(self.radj)', 'self.edgeset == old(self.edgeset)']
+               'self.radj == old(self.radj)', 'self.edgeset == old(self.edgeset)', 'self.idxl == old(self.idxl)', 'self.idxr == old(self.idxr)']
 
 CONTRACTS.update({
     (G, 'BipartiteGraphRep.has_edge'): {
@@ -324,6 +327,7 @@ def _edges_from(model, inv, valid, fields):
         'params': {'self': 'obj:' + model, 'edges': 'pairlist'},
         'raises': {'ValueError': 'not forall(lambda j: implies(0 <= j and j < len(edges), {}))'.format(V)},
         'ensures_on_raise': inv,
+        'modifies': ['self.' + f for f in fields],
         'loops': {0: {'ghost_at_entry': {'E0': 'self.edgeset'},
                       'inv': ['forall(lambda x, y: implies((x, y) in E0, (x, y) in self.edgeset))',
                               'forall(lambda j: implies(0 <= j and j < _it, (edges[j][0], edges[j][1]) in self.edgeset), lambda j: edges[j][0])',
